@@ -1,11 +1,345 @@
 /-
-  C05 — property theorems only (placeholder until the refinement proof lands).
+  C05 — Marshal / Unmarshal round trip.  Property theorems only
+  (helper lemmas: JSV/Proofs/MshNode.lean, MshRound.lean, MshFacts.lean).
+
+  Proved here: boolean schemas round-trip; the emitted object never repeats a key; Extra round-trips;
+  the table obligations over the generated struct description.  The scalar fragment of the full round
+  trip is `roundtrip_scalar_fragment`; what is missing for the full statement is listed at the end.
 -/
-import JSV.Model.Validate
+import JSV.Proofs.MshRound
+import JSV.Proofs.MshScalar
+import JSV.Proofs.MshFacts
 namespace JSV.C05
 open JSV Go
 
-theorem validateFuel_zero (env : VEnv) (stack : List NodeId) (i : GoVal) (s : NodeId) :
-    validateFuel env 0 stack i s = .fuel := rfl
+/-! ## boolean schemas -/
+
+/-- `&Schema{}` is written as `true`, `&Schema{Not: &Schema{}}` as `false` -/
+theorem marshal_empty :
+    (∀ (st : Store) (rec : Go.MRec) (id : NodeId), st.get? id = some Go.emptyNode →
+      Go.marshalStep st rec id = .ok (.bool true)) ∧
+    (∀ (st : Store) (f : Nat) (id inner : NodeId),
+      st.get? id = some { Go.emptyNode with not := some inner } → st.get? inner = some Go.emptyNode →
+      Go.marshalFuel st (f + 2) id = .ok (.bool false)) ∧
+    (∀ st : Store, Go.marshal (st.alloc Go.emptyNode).2 (st.alloc Go.emptyNode).1 = .ok (.bool true)) ∧
+    (∀ st : Store, Go.marshal (Go.allocFalse st).2 (Go.allocFalse st).1 = .ok (.bool false)) := by
+  refine ⟨Go.marshalStep_empty, ?_, Go.marshal_alloc_empty, Go.marshal_allocFalse⟩
+  intro st f id inner h hi
+  exact Go.marshalStep_false st _ id inner h hi (Go.marshalStep_empty st _ inner hi)
+
+/-- `true` allocates the zero Schema, `false` the falseSchema() pair; marshal ∘ unmarshal is the identity
+    on boolean schemas -/
+theorem unmarshal_bool :
+    (∀ st : Store, Go.unmarshal (.bool true) st = .ok (st.alloc Go.emptyNode)) ∧
+    (∀ st : Store, Go.unmarshal (.bool false) st = .ok (Go.allocFalse st)) ∧
+    (∀ (b : Bool) (st : Store) (id : NodeId) (st' : Store),
+      Go.unmarshal (.bool b) st = .ok (id, st') → Go.marshal st' id = .ok (.bool b)) := by
+  refine ⟨Go.unmarshal_true, Go.unmarshal_false, ?_⟩
+  intro b st id st' h
+  cases b with
+  | true =>
+    rw [Go.unmarshal_true] at h
+    cases h
+    exact Go.marshal_alloc_empty st
+  | false =>
+    rw [Go.unmarshal_false] at h
+    have h' : Go.allocFalse st = (id, st') := Res.ok.inj h
+    have := Go.marshal_allocFalse st
+    rw [h'] at this
+    exact this
+
+/-! ## no key is written twice -/
+
+/-- the keys of the emitted object are pairwise distinct (top level): the struct names are distinct, the
+    Extra keys are distinct (a Go map) and marshalStructWithMap's check keeps the two apart -/
+theorem marshal_no_duplicate_keys (st : Store) (rec : Go.MRec) (id : NodeId) (n : Node)
+    (ms : List (String × Json)) (hn : st.get? id = some n)
+    (hx : ((n.extra.getD []).map (·.1)).Nodup)
+    (h : Go.marshalStep st rec id = .ok (.obj ms)) : (ms.map (·.1)).Nodup :=
+  Go.marshalStep_obj_keys_nodup hn h hx
+
+/-- … and they come in the fixed order of the wrapper struct followed by Schema's declaration order,
+    then the Extra keys (ascending) -/
+theorem marshal_key_order (st : Store) (rec : Go.MRec) (id : NodeId) (n : Node)
+    (ms : List (String × Json)) (hn : st.get? id = some n)
+    (h : Go.marshalStep st rec id = .ok (.obj ms)) :
+    (ms.map (·.1)).Sublist (Go.emittedNames ++ (Go.sortKV ((n.extra.getD []).map fun (k, v) => (k, Go.sortJson v))).map (·.1)) := by
+  rw [Go.marshalStep_eq, hn] at h
+  dsimp only at h
+  by_cases h1 : (!Go.marshalChecksOk n) = true
+  · rw [if_pos h1] at h; cases h
+  · rw [if_neg h1] at h
+    by_cases h2 : ((n.extra.getD []).any fun e => Go.structNames.contains e.1) = true
+    · rw [if_pos h2] at h; cases h
+    · rw [if_neg h2] at h
+      exact Go.marshalNode_obj_keys h
+
+/-- an Extra key that collides with a struct name is an error (marshalStructWithMap) -/
+theorem marshal_extra_collision_rejected (st : Store) (rec : Go.MRec) (id : NodeId) (n : Node)
+    (hn : st.get? id = some n) (e : String × Json) (he : e ∈ n.extra.getD [])
+    (hk : e.1 ∈ Go.structNames) : ∃ r, Go.marshalStep st rec id = r ∧ (r = .err) := by
+  refine ⟨_, rfl, ?_⟩
+  rw [Go.marshalStep_eq, hn]
+  dsimp only
+  by_cases h1 : (!Go.marshalChecksOk n) = true
+  · rw [if_pos h1]
+  · rw [if_neg h1, if_pos]
+    rw [List.any_eq_true]
+    exact ⟨e, he, by simpa using hk⟩
+
+/-! ## Extra -/
+
+/-- a Schema whose only non-zero field is Extra (at least one entry; keys that are no keyword; values
+    already in the form encoding/json writes, i.e. object keys sorted at every depth) is written as the
+    object of its entries in ascending key order, and reading that object back gives a Schema whose only
+    non-zero field is Extra with the same entries (as a map: up to order) -/
+theorem extra_roundtrip (st : Store) (mrec : Go.MRec) (urec : Go.URec) (id : NodeId)
+    (es : List (String × Json)) (st2 : Store)
+    (hn : st.get? id = some { extra := some es }) (hne : es ≠ [])
+    (hk : ∀ e, e ∈ es → e.1 ∉ Go.knownKeys) (hs : ∀ e, e ∈ es → Go.sortJson e.2 = e.2) :
+    Go.marshalStep st mrec id = .ok (.obj (Go.sortKV es)) ∧
+    Go.unmarshalStep urec (.obj (Go.sortKV es)) st2 = .ok (st2.alloc { extra := some (Go.sortKV es) }) ∧
+    (Go.sortKV es).Perm es := by
+  have hp := Go.sortKV_perm es
+  refine ⟨?_, ?_, hp⟩
+  · exact Go.marshalStep_extra st mrec id es hn hne
+      (fun e he hc => hk e he ((Go.structNames_iff_knownKeys _).1 hc)) hs
+  · apply Go.unmarshalStep_extra
+    · intro h0
+      rw [h0] at hp
+      exact hne hp.symm.eq_nil
+    · intro e he
+      exact hk e (hp.mem_iff.1 he)
+
+/-! ## the scalar fragment of the round trip -/
+
+/-- `roundtrip_scalar_fragment` — the `…_partial` of the full round trip `Unmarshal (Marshal s) ≅ s`.
+    For a Schema that populates only string / bool / number / integer / string-list keywords
+    ($id $schema $ref $comment $anchor $dynamicAnchor $dynamicRef title description deprecated readOnly
+    writeOnly type(string or list) multipleOf minimum maximum exclusiveMinimum exclusiveMaximum minLength
+    maxLength pattern minItems maxItems uniqueItems minContains maxContains minProperties maxProperties
+    required contentEncoding contentMediaType format) and Extra — every other field zero (first
+    hypothesis) —, with `type` and `types` not both set (basicChecks), the integer keywords inside the
+    int32 window of the `integer` helper, Extra keys that are no keyword and Extra values in the form
+    encoding/json writes: whatever MarshalJSON writes, UnmarshalJSON reads back as the same Schema, except
+    that `required: []` (non-nil, empty: omitted by omitempty) comes back as nil (`Go.normReq`) and Extra
+    comes back with its entries in ascending key order — the same map — or nil if empty (`Go.normExtra`).
+    `urec` / `mrec` are arbitrary: no subschema is visited. -/
+theorem roundtrip_scalar_fragment (st : Store) (mrec : Go.MRec) (urec : Go.URec) (id : NodeId) (st2 : Store)
+    (j : Json) (n : Node)
+    (hs : { n with defs := none, definitions := none, dependencySchemas := none, dependencyStrings := none,
+                   vocabulary := none, default := none, examples := none, enum := none, const := none,
+                   prefixItems := none, items := none, itemsArray := none, additionalItems := none,
+                   contains := none, unevaluatedItems := none, dependentRequired := none, properties := none,
+                   patternProperties := none, additionalProperties := none, propertyNames := none,
+                   unevaluatedProperties := none, allOf := none, anyOf := none, oneOf := none, not := none,
+                   if_ := none, then_ := none, else_ := none, dependentSchemas := none, contentSchema := none,
+                   propertyOrder := none } = n)
+    (hT : (n.type != "" && n.types.isSome) = false)
+    (h1 : Go.InInt32 n.minLength) (h2 : Go.InInt32 n.maxLength) (h3 : Go.InInt32 n.minItems)
+    (h4 : Go.InInt32 n.maxItems) (h5 : Go.InInt32 n.minContains) (h6 : Go.InInt32 n.maxContains)
+    (h7 : Go.InInt32 n.minProperties) (h8 : Go.InInt32 n.maxProperties)
+    (hk : ∀ e, e ∈ n.extra.getD [] → e.1 ∉ Go.knownKeys)
+    (hsj : ∀ e, e ∈ n.extra.getD [] → Go.sortJson e.2 = e.2)
+    (hn : st.get? id = some n) (hj : Go.marshalStep st mrec id = .ok j) :
+    Go.unmarshalStep urec j st2 =
+      .ok (st2.alloc { n with required := Go.normReq n.required, extra := Go.normExtra n.extra }) :=
+  Go.scalarOnly_roundtrip st mrec urec id st2 j n hs hT h1 h2 h3 h4 h5 h6 h7 h8 hk hsj hn hj
+
+/-- `normReq` only changes the non-nil empty slice -/
+theorem normReq_eq (r : Option (List String)) (h : r ≠ some []) : Go.normReq r = r := by
+  unfold Go.normReq
+  split
+  · rfl
+  · next hx =>
+    cases r with
+    | none => rfl
+    | some l =>
+      cases l with
+      | nil => exact absurd rfl h
+      | cons x xs => exact absurd rfl (hx x xs)
+
+/-- `normExtra` keeps the map: nil or empty ↦ nil, otherwise a permutation (the key-sorted one) -/
+theorem normExtra_perm (ex : Option (List (String × Json))) :
+    ((Go.normExtra ex).getD []).Perm (ex.getD []) := by
+  unfold Go.normExtra
+  split
+  · exact Go.sortKV_perm _
+  · next hx =>
+    cases ex with
+    | none => exact List.Perm.refl _
+    | some l =>
+      cases l with
+      | nil => exact List.Perm.refl _
+      | cons e es => exact absurd rfl (hx e es)
+
+/-- … so with `required` nil or non-empty and no Extra the Schema comes back exactly -/
+theorem roundtrip_scalar_exact (st : Store) (mrec : Go.MRec) (urec : Go.URec) (id : NodeId) (st2 : Store)
+    (j : Json) (n : Node) (hs : Go.ScalarOnly n)
+    (hT : (n.type != "" && n.types.isSome) = false)
+    (h1 : Go.InInt32 n.minLength) (h2 : Go.InInt32 n.maxLength) (h3 : Go.InInt32 n.minItems)
+    (h4 : Go.InInt32 n.maxItems) (h5 : Go.InInt32 n.minContains) (h6 : Go.InInt32 n.maxContains)
+    (h7 : Go.InInt32 n.minProperties) (h8 : Go.InInt32 n.maxProperties)
+    (hr : n.required ≠ some []) (hx : n.extra = none)
+    (hn : st.get? id = some n) (hj : Go.marshalStep st mrec id = .ok j) :
+    Go.unmarshalStep urec j st2 = .ok (st2.alloc n) := by
+  have h := Go.scalarOnly_roundtrip st mrec urec id st2 j n hs hT h1 h2 h3 h4 h5 h6 h7 h8
+    (by rw [hx]; intro e he; cases he) (by rw [hx]; intro e he; cases he) hn hj
+  rw [normReq_eq _ hr, hx] at h
+  have e : ({ n with required := n.required, extra := Go.normExtra none } : Node) = n := by
+    have : Go.normExtra none = n.extra := by rw [hx]; rfl
+    rw [this]
+  rw [e] at h
+  exact h
+
+/-- the int32 window is needed: MarshalJSON writes any `*int`, the `integer` helper of UnmarshalJSON
+    rejects values outside int32 (so Marshal's output is not always accepted by Unmarshal) -/
+example (mrec : Go.MRec) (urec : Go.URec) :
+    Go.marshalStep #[{ minLength := some 2147483648 }] mrec 0 = .ok (.obj [("minLength", .num 2147483648)]) ∧
+    Go.unmarshalStep urec (.obj [("minLength", .num 2147483648)]) #[] = .err :=
+  ⟨by rfl, by rfl⟩
+
+/-! ### What is missing for the full round trip
+  * subschema-valued keywords (the 23 fields of C20): needs the recursion over the tree; UnmarshalJSON
+    allocates new Schemas, so the statement must be "the rebuilt tree is a copy" (`Go.Sim` of
+    JSV/Proofs/MshClone.lean) rather than equality of nodes, plus the fuel bounds of marshal / unmarshal;
+  * `any`-typed keywords (enum, const, default, examples) and Extra values: equal only up to the key order
+    of nested objects (`sortJson`), `const: null` and `default` raw bytes need their own statements;
+  * map-typed keywords ($vocabulary, dependentRequired, the schema maps): equal up to map order (`Perm`);
+  * the `dependencies` union (DependencySchemas / DependencyStrings) and `items` union;
+  * Extra together with subschema / any-typed / map-typed members (Extra with scalars is covered above);
+  * `required: []`, empty-but-non-nil slices and maps in general (omitempty) — `normReq` above;
+  * PropertyOrder is not written at all (`json:"-"`), it never round-trips except through the order of
+    "properties", which UnmarshalJSON does not read back.
+-/
+
+/-! ## table obligations over the generated description of the Schema struct -/
+
+/-- the JSON names given by struct tags are pairwise distinct -/
+theorem tagged_names_distinct : Go.taggedNames.Nodup := by decide
+
+/-- every tagged name is a key UnmarshalJSON knows and a name marshalStructWithMap protects -/
+theorem tagged_names_known :
+    (∀ k, k ∈ Go.taggedNames → k ∈ Go.knownKeys) ∧ (∀ k, k ∈ Go.taggedNames → k ∈ Go.structNames) := by
+  constructor <;> decide
+
+/-- the two name tables of the model agree as sets, and the model's emission order is exactly the
+    wrapper-struct names followed by the tagged names in declaration order -/
+theorem name_tables_agree :
+    (∀ k, k ∈ Go.structNames ↔ k ∈ Go.knownKeys) ∧
+    Go.emittedNames =
+      (Generated.marshalShadow.map Go.shadowName) ++
+      Go.taggedNames.filter (fun k => !(Generated.marshalShadow.map Go.shadowName).contains k) := by
+  refine ⟨Go.structNames_iff_knownKeys, ?_⟩
+  rw [Go.emittedNames_eq]
+  decide
+
+/-- the `-`-tagged fields are the three union pairs plus Extra and PropertyOrder; the names they are
+    written under (type, items, dependencies) are exactly the untagged names of the wrapper structs of
+    MarshalJSON and UnmarshalJSON, and exactly the known keys that are no tag -/
+theorem dash_fields_are_wrapper_fields :
+    (Generated.schemaFields.filter fun f => f.2.2.1 == "-").map (·.1)
+      = ["DependencySchemas", "DependencyStrings", "Type", "Types", "Items", "ItemsArray", "Extra", "PropertyOrder"] ∧
+    Go.knownKeys.filter (fun k => !Go.taggedNames.contains k) = ["type", "items", "dependencies"] ∧
+    (Generated.marshalShadow.filter fun s => !Go.taggedNames.contains (Go.shadowName s)).map Go.shadowGo
+      = ["Type", "Dependencies", "Items"] ∧
+    (Generated.marshalShadow.filter fun s => !Go.taggedNames.contains (Go.shadowName s)).map Go.shadowName
+      = ["type", "dependencies", "items"] ∧
+    (Generated.unmarshalShadow.filter fun s => !Go.taggedNames.contains (Go.shadowName s)).map Go.shadowName
+      = ["type", "dependencies", "items"] := by
+  decide
+
+/-- the `*integer` fields of UnmarshalJSON's wrapper struct are the eight `*int` keywords of Schema … -/
+theorem integer_shadow_fields :
+    (Generated.unmarshalShadow.filter fun s => Go.shadowType s == "*integer").map Go.shadowName
+      = ["minLength", "maxLength", "minItems", "maxItems", "minProperties", "maxProperties",
+         "minContains", "maxContains"] ∧
+    (∀ k, k ∈ (Generated.unmarshalShadow.filter fun s => Go.shadowType s == "*integer").map Go.shadowName →
+          k ∈ (Generated.schemaFields.filter fun f => f.2.1 == "*int").map (·.2.2.1)) ∧
+    (∀ k, k ∈ (Generated.schemaFields.filter fun f => f.2.1 == "*int").map (·.2.2.1) →
+          k ∈ (Generated.unmarshalShadow.filter fun s => Go.shadowType s == "*integer").map Go.shadowName) := by
+  decide
+
+/-- … and these eight are the keys the model decodes with `decInteger` (the int32 window) -/
+theorem integer_keywords_use_decInteger (rec : Go.URec) (n : Node) (st : Store) (v : Json) :
+    Go.setField rec n st "minLength" v = Res.bind (Go.decInteger v) (fun q => .ok ({ n with minLength := q }, st)) ∧
+    Go.setField rec n st "maxLength" v = Res.bind (Go.decInteger v) (fun q => .ok ({ n with maxLength := q }, st)) ∧
+    Go.setField rec n st "minItems" v = Res.bind (Go.decInteger v) (fun q => .ok ({ n with minItems := q }, st)) ∧
+    Go.setField rec n st "maxItems" v = Res.bind (Go.decInteger v) (fun q => .ok ({ n with maxItems := q }, st)) ∧
+    Go.setField rec n st "minProperties" v = Res.bind (Go.decInteger v) (fun q => .ok ({ n with minProperties := q }, st)) ∧
+    Go.setField rec n st "maxProperties" v = Res.bind (Go.decInteger v) (fun q => .ok ({ n with maxProperties := q }, st)) ∧
+    Go.setField rec n st "minContains" v = Res.bind (Go.decInteger v) (fun q => .ok ({ n with minContains := q }, st)) ∧
+    Go.setField rec n st "maxContains" v = Res.bind (Go.decInteger v) (fun q => .ok ({ n with maxContains := q }, st)) :=
+  ⟨rfl, rfl, rfl, rfl, rfl, rfl, rfl, rfl⟩
+
+/-! ## The hypotheses are satisfiable on non-trivial data -/
+
+def exExtra : List (String × Json) :=
+  [("x-b", .obj [("a", .num 1), ("b", .arr [.null])]), ("x-a", .str "v"), ("examplesX", .bool false)]
+
+example : exExtra ≠ [] := by decide
+example : ∀ e, e ∈ exExtra → e.1 ∉ Go.knownKeys := by decide
+example : ∀ e, e ∈ exExtra → Go.sortJson e.2 = e.2 := by
+  intro e he
+  simp only [exExtra, List.mem_cons, List.not_mem_nil, or_false] at he
+  rcases he with rfl | rfl | rfl <;> rfl
+/-- `extra_roundtrip` applied (marshal side) -/
+example (rec : Go.MRec) :
+    Go.marshalStep #[{ extra := some exExtra }] rec 0 =
+      .ok (.obj [("examplesX", .bool false), ("x-a", .str "v"), ("x-b", .obj [("a", .num 1), ("b", .arr [.null])])]) :=
+  (extra_roundtrip #[{ extra := some exExtra }] rec (fun _ _ => .fuel) 0 exExtra #[] rfl (by decide) (by decide)
+    (by intro e he
+        simp only [exExtra, List.mem_cons, List.not_mem_nil, or_false] at he
+        rcases he with rfl | rfl | rfl <;> rfl)).1
+
+/-- `marshal_no_duplicate_keys` on a node that uses struct fields, wrapper fields and Extra -/
+example :
+    Go.marshal #[{ type := "object", title := "t", required := some ["a"], properties := some [("a", 1)],
+                   extra := some [("x-z", .num 1), ("x-a", .num 2)] }, {}] 0
+      = .ok (.obj [("type", .str "object"), ("properties", .obj [("a", .bool true)]), ("title", .str "t"),
+                   ("required", .arr [.str "a"]), ("x-a", .num 2), ("x-z", .num 1)]) := by rfl
+
+def exScalar : Node :=
+  { schema := "https://json-schema.org/draft/2020-12/schema", type := "string", title := "T",
+    deprecated := true, multipleOf := some (mkRat 3 2), minLength := some 3, maxLength := some 2147483647,
+    uniqueItems := true, required := some ["b", "a"], format := "date" }
+
+example : Go.ScalarOnly exScalar := rfl
+example : (exScalar.type != "" && exScalar.types.isSome) = false := by decide
+example : Go.InInt32 exScalar.minLength := by intro i h; cases h; decide
+example : Go.InInt32 exScalar.maxLength := by intro i h; cases h; decide
+example : Go.InInt32 exScalar.minItems := by intro i h; cases h
+/-- `roundtrip_scalar_exact` applied: what `exScalar` marshals to is read back as `exScalar` -/
+example (mrec : Go.MRec) (urec : Go.URec) (st2 : Store) (j : Json)
+    (hj : Go.marshalStep #[exScalar] mrec 0 = .ok j) :
+    Go.unmarshalStep urec j st2 = .ok (st2.alloc exScalar) :=
+  roundtrip_scalar_exact #[exScalar] mrec urec 0 st2 j exScalar rfl (by decide)
+    (by intro i h; cases h; decide) (by intro i h; cases h; decide) (by intro i h; cases h)
+    (by intro i h; cases h) (by intro i h; cases h) (by intro i h; cases h) (by intro i h; cases h)
+    (by intro i h; cases h) (by decide) rfl rfl hj
+/-- … and the hypothesis `hj` is inhabited: this is what it marshals to -/
+example (mrec : Go.MRec) :
+    Go.marshalStep #[exScalar] mrec 0 = .ok (.obj [("type", .str "string"),
+      ("$schema", .str "https://json-schema.org/draft/2020-12/schema"), ("title", .str "T"),
+      ("deprecated", .bool true), ("multipleOf", .num (mkRat 3 2)), ("minLength", .num 3),
+      ("maxLength", .num 2147483647), ("uniqueItems", .bool true),
+      ("required", .arr [.str "b", .str "a"]), ("format", .str "date")]) := by rfl
+/-- `roundtrip_scalar_fragment` applied with Extra: the entries come back key-sorted -/
+example (mrec : Go.MRec) (urec : Go.URec) (st2 : Store) (j : Json)
+    (hj : Go.marshalStep #[{ exScalar with extra := some exExtra }] mrec 0 = .ok j) :
+    Go.unmarshalStep urec j st2 = .ok (st2.alloc { exScalar with extra := some (Go.sortKV exExtra) }) :=
+  roundtrip_scalar_fragment #[{ exScalar with extra := some exExtra }] mrec urec 0 st2 j
+    { exScalar with extra := some exExtra } rfl (by decide)
+    (by intro i h; cases h; decide) (by intro i h; cases h; decide) (by intro i h; cases h)
+    (by intro i h; cases h) (by intro i h; cases h) (by intro i h; cases h) (by intro i h; cases h)
+    (by intro i h; cases h) (by decide)
+    (by intro e he
+        simp only [exExtra, Option.getD_some, List.mem_cons, List.not_mem_nil, or_false] at he
+        rcases he with rfl | rfl | rfl <;> rfl) rfl hj
+
+/-- nil-vs-empty: `required: []` is omitted, the Schema is written as `true` and read back as `&Schema{}` -/
+example (mrec : Go.MRec) (urec : Go.URec) (st2 : Store) :
+    Go.marshalStep #[{ required := some [] }] mrec 0 = .ok (.bool true) ∧
+    Go.unmarshalStep urec (.bool true) st2 = .ok (st2.alloc {}) := ⟨by rfl, by rfl⟩
 
 end JSV.C05
